@@ -375,9 +375,10 @@ func (a *Anchors) deriveRoles() {
 		}
 		if f.Recv == "lock" && recvStores("lock.locks") {
 			// acquire returns the token; release takes it as parameter and returns nothing
-			if f.Sig.Results().Len() == 1 && f.Sig.Params().Len() == 0 {
+			// (a release may report whether the bit was held)
+			if f.Sig.Results().Len() == 1 && f.Sig.Params().Len() == 0 && isInt(f.Sig.Results().At(0).Type()) {
 				a.Acquire[f] = true
-			} else if f.Sig.Results().Len() == 0 && f.Sig.Params().Len() == 1 {
+			} else if f.Sig.Params().Len() == 1 && isInt(f.Sig.Params().At(0).Type()) && (f.Sig.Results().Len() == 0 || (f.Sig.Results().Len() == 1 && returnsBool(f))) {
 				a.Release[f] = true
 			}
 		}
